@@ -420,3 +420,108 @@ Proof. unfold tree_sorted. apply sorted_go_preserves. Qed.
 
 Lemma sorted_tlen t order : tlen (tree_sorted t order) = tlen t.
 Proof. unfold tree_sorted. apply sorted_go_preserves. Qed.
+
+(* ------------------------------------------------------------------ (4) unrooted *)
+
+(** the current [unrooted()] adds the collapsed edge's length to the
+    grandchildren: ((a:1,b:2):3,(c:4,d:5):6) has d(a,b) = 3, the result 9 *)
+Theorem unrooted_current_refuted : exists t a b,
+  NoDup (tips t) /\ In a (tips t) /\ In b (tips t) /\ pos_lens t = true /\
+  pathlen 1 (unrooted t) a b <> pathlen 1 t a b.
+Proof.
+  exists (Node [114] None
+            [Node [120] (Some 3) [Node [97] (Some 1) []; Node [98] (Some 2) []];
+             Node [121] (Some 6) [Node [99] (Some 4) []; Node [100] (Some 5) []]]),
+         [97], [98].
+  split.
+  { cbn. repeat constructor; cbn; intuition discriminate. }
+  split; [cbn; tauto|]. split; [cbn; tauto|]. split; [reflexivity|].
+  vm_compute. discriminate.
+Qed.
+
+Lemma tips_relen s l : tips (Node (tname s) l (kids s)) = tips s.
+Proof. destruct s as [n l0 cs]. destruct cs; reflexivity. Qed.
+
+Lemma tips_bump lo s : tips (bump lo s) = tips s.
+Proof. unfold bump. apply tips_relen. Qed.
+
+Lemma pathlen_kids dflt t a b : pathlen dflt t a b = contribs dflt a b (kids t).
+Proof. destruct t as [n l cs]. reflexivity. Qed.
+
+Lemma pathlen_bump dflt lo s a b : pathlen dflt (bump lo s) a b = pathlen dflt s a b.
+Proof. unfold bump. rewrite pathlen_node. symmetry. apply pathlen_kids. Qed.
+
+Lemma sep_bump lo s a b : sep (bump lo s) a b = sep s a b.
+Proof. unfold sep. rewrite tips_bump. reflexivity. Qed.
+
+(** merging the edge above [x] into the edge above its sibling [y] *)
+Lemma contrib_bump dflt a b x y lx ly :
+  tlen x = Some lx -> tlen y = Some ly -> sep x a b = sep y a b ->
+  contrib dflt a b (bump (tlen x) y) = edge_w dflt x a b + contrib dflt a b y.
+Proof.
+  intros Hx Hy Hs. unfold contrib. rewrite pathlen_bump.
+  unfold edge_w. rewrite sep_bump, Hs.
+  unfold clen, bump. cbn [tlen]. rewrite Hx, Hy. cbn [add_len].
+  destruct (sep y a b); lia.
+Qed.
+
+Lemma edge_w_both dflt x a b :
+  In a (tips x) -> In b (tips x) -> edge_w dflt x a b = 0.
+Proof.
+  intros Ha Hb. unfold edge_w, sep.
+  apply memb_In in Ha, Hb. rewrite Ha, Hb. reflexivity.
+Qed.
+
+Theorem unrooted_fixed_preserves : forall dflt t a b,
+  has_lens t = true -> NoDup (tips t) -> In a (tips t) -> In b (tips t) ->
+  Permutation (tips (unrooted_fixed t)) (tips t) /\
+  pathlen dflt (unrooted_fixed t) a b = pathlen dflt t a b.
+Proof.
+  intros dflt t a b HL HN Ha Hb. destruct t as [n l cs].
+  unfold unrooted_fixed. cbn [kids tname tlen].
+  destruct cs as [|x cs]; [split; reflexivity|].
+  destruct cs as [|y cs].
+  - (* a single root child *)
+    destruct (kids x) as [|x1 xs] eqn:Ex; [split; reflexivity|].
+    assert (Hkx : kids x <> []) by (rewrite Ex; discriminate).
+    assert (Ht : tips (Node n l [x]) = tips x).
+    { rewrite tips_node by discriminate. rewrite tips_of_cons. apply app_nil_r. }
+    rewrite Ht in *. split.
+    + rewrite tips_node by discriminate. rewrite <- Ex, <- (tips_kids x Hkx). reflexivity.
+    + rewrite !pathlen_node, contribs_cons. change (contribs dflt a b []) with 0.
+      unfold contrib. rewrite (edge_w_both dflt x a b Ha Hb), <- Ex, <- pathlen_kids. lia.
+  - destruct cs as [|z cs]; [|split; reflexivity].
+    (* exactly two root children *)
+    assert (Ht : tips (Node n l [x; y]) = tips x ++ tips y).
+    { rewrite tips_node by discriminate. rewrite !tips_of_cons.
+      change (tips_of []) with (@nil name). rewrite app_nil_r. reflexivity. }
+    rewrite Ht in *.
+    assert (Hsep : sep x a b = sep y a b).
+    { unfold sep. apply xor_sides; assumption. }
+    unfold has_lens in HL. cbn [lens_ok forallb] in HL.
+    apply andb_true_iff in HL. destruct HL as [HLx HL].
+    apply andb_true_iff in HL. destruct HL as [HLy _].
+    apply andb_true_iff in HLx. destruct HLx as [HLx _].
+    apply andb_true_iff in HLy. destruct HLy as [HLy _].
+    destruct (tlen x) as [lx|] eqn:Elx; [|discriminate].
+    destruct (tlen y) as [ly|] eqn:Ely; [|discriminate].
+    destruct (kids x) as [|x1 xs] eqn:Ex.
+    + destruct (kids y) as [|y1 ys] eqn:Ey; [rewrite Ht; split; reflexivity|].
+      assert (Hky : kids y <> []) by (rewrite Ey; discriminate).
+      split.
+      * rewrite tips_node by discriminate. rewrite tips_of_cons, tips_bump.
+        rewrite <- Ey, <- (tips_kids y Hky). reflexivity.
+      * rewrite !pathlen_node, !contribs_cons. change (contribs dflt a b []) with 0.
+        rewrite <- Ely. rewrite (contrib_bump dflt a b y x ly lx Ely Elx (eq_sym Hsep)).
+        rewrite <- Ey, <- pathlen_kids. unfold contrib. lia.
+    + assert (Hkx : kids x <> []) by (rewrite Ex; discriminate).
+      assert (Hne : (x1 :: xs) ++ [bump (Some lx) y] <> []) by discriminate.
+      split.
+      * rewrite (tips_node _ _ _ Hne). rewrite tips_of_app, tips_of_cons, tips_bump.
+        change (tips_of []) with (@nil name). rewrite app_nil_r.
+        rewrite <- Ex, <- (tips_kids x Hkx). reflexivity.
+      * rewrite !pathlen_node, contribs_app, !contribs_cons.
+        change (contribs dflt a b []) with 0.
+        rewrite <- Elx. rewrite (contrib_bump dflt a b x y lx ly Elx Ely Hsep).
+        rewrite <- Ex, <- pathlen_kids. unfold contrib. lia.
+Qed.
